@@ -72,3 +72,15 @@ func (p *Pegnet) IsReplayTransaction(tx *sql.Tx, entryHash *factom.Bytes32) (boo
 	// If there is any result, then we know the transaction has been executed before and thus a replay.
 	return rows.Next(), nil
 }
+
+// IsRecordedTransaction returns true if a copy of this entry was already
+// recorded in the transaction history, whatever became of it (executed,
+// rejected, or still in holding). A later copy of such an entry is a replay.
+func (p *Pegnet) IsRecordedTransaction(tx *sql.Tx, entryHash *factom.Bytes32) (bool, error) {
+	var count int
+	err := tx.QueryRow(`SELECT COUNT(*) FROM "pn_history_txbatch" WHERE "entry_hash" = ?;`, entryHash[:]).Scan(&count)
+	if err != nil {
+		return false, err
+	}
+	return count > 0, nil
+}
